@@ -35,3 +35,12 @@ Theorem C07_old_rule_refuted : exists F L prev pterm es leader_commit,
     exists c i, follower_commit 0 (p_last_entry_id F') leader_commit = Some c /\ i <= c /\ p_entry F' i <> p_entry L i /\ p_entry F' i <> None.
 Proof. exact old_rule_unsound. Qed.
 Print Assumptions C07_old_rule_refuted.
+
+(* cluster level: in the abstract Raft system a follower's committed prefix is a prefix of the log of
+   the leader of its current term *)
+From DE Require Import AbstractRaft proofs.AR_election proofs.AR_logs proofs.AR_complete proofs.AR_sms.
+Theorem C07_follower_commit_matches_leader : forall nodes s, reach nodes s -> forall l t f,
+  In (l, t) (g_leaders s) -> a_cur s f = t ->
+  forall i, i <= a_commit s f -> prefix (a_log s f) i = prefix (g_llog s t) i.
+Proof. exact follower_commit_matches_leader. Qed.
+Print Assumptions C07_follower_commit_matches_leader.
